@@ -1038,7 +1038,7 @@ func (x *gen) sequences() {
 			case 9:
 				ops = append(ops, "G")
 			case 10:
-				ops = append(ops, fmt.Sprintf("S%d", int32(x.u32())))
+				ops = append(ops, fmt.Sprintf("S%d", x.u32()&0x7fffffff)) // never the "unknown" sentinel, whatever its value
 			}
 		}
 		return joinOps(ops)
@@ -1073,7 +1073,7 @@ func (x *gen) sequences() {
 			case 4:
 				ops = append(ops, "M")
 			case 5:
-				ops = append(ops, fmt.Sprintf("S%d", r.Intn(100000)-1))
+				ops = append(ops, fmt.Sprintf("S%d", r.Intn(100000)))
 			}
 		}
 		p := w.Bytes()
